@@ -1,9 +1,148 @@
 import Pandora.Drv.Util
+import Pandora.Spec.C18
 
 namespace Pandora.Drv.C18
-open Pandora.Drv
+open Pandora.Drv Pandora.Model.C18 Pandora.Spec.C18
 
-/-- stub: replaced when the property's model driver is written -/
-def handle : Handler := fun _ _ => ("-", "skip:not-built")
+def parseShape (s : String) : Option Shape :=
+  match s.toList with
+  | [fa, cf, ce, fe, ifc, df] => do
+    let factory ← (match fa with | 'F' => some true | 'P' => some false | _ => none)
+    let cfg ← (match cf with | 'n' => some CfgKind.none | 's' => some CfgKind.struct | 'p' => some CfgKind.ptr | _ => none)
+    let dflt ← (match df with | 'a' => some DefKind.absent | 'f' => some DefKind.fresh | 'n' => some DefKind.nilPtr
+                              | 's' => some DefKind.shared | _ => none)
+    pure { factory, cfg, ctorErr := ce == 'E', factErr := fe == 'E', iface := ifc == 'I', dflt }
+  | _ => none
+
+def parseForm : String → Option Form
+  | "c" => some .component | "f1" => some .facNoErr | "f2" => some .facErr | _ => none
+
+/-- "5/6/7" / "_/9/_" → bindings of fields 1,2,3 -/
+def parseCfg (s : String) : Option Cfg :=
+  let rec go : List String → Nat → Option Cfg
+    | [], _ => some []
+    | t :: ts, i => do
+      let rest ← go ts (i + 1)
+      if t == "_" then pure rest else pure ((i, ← t.toInt?) :: rest)
+  go (s.splitOn "/") 1
+
+def parseInput (s : String) : Option Input := do
+  let kv := parseKV s
+  let sh ← parseShape (getS kv "sh")
+  let form ← parseForm (getS kv "form")
+  let d ← parseCfg (getS kv "d")
+  let u ← parseCfg (getS kv "u")
+  let k ← getN? kv "k"
+  let ff ← parseNats (getS kv "ff")
+  let cf ← parseNats (getS kv "cf")
+  let rf ← parseNats (getS kv "rf")
+  pure { sh, form, k, w := { dflt := d, user := u, hasFill := getS kv "fill" == "1",
+                             fillFault := ff.contains, ctorFault := cf.contains, factFault := rf.contains } }
+
+def okc (b : Bool) : String := if b then "+" else "!"
+
+def showEv (sh : Shape) : Ev → String
+  | .dflt => "D"
+  | .fill i a ok => s!"F{i}@{match a with | some c => toString c | none => "e"}{okc ok}"
+  | .ctor i c ok =>
+      let n := match sh.cfg, c with
+        | .ptr, some c => toString c
+        | .ptr, none => "?"
+        | .struct, _ => "v"
+        | .none, _ => "n"
+      s!"C{i}@{n}{okc ok}"
+  | .fact i ok => s!"R{i}{okc ok}"
+
+def showErr : Err → String
+  | .fill i => s!"fill{i}" | .ctor i => s!"ctor{i}" | .fact i => s!"fact{i}"
+
+def showRes : Res → String
+  | .made => "made"
+  | .ok p => s!"ok.{p.serial}.{match p.cell with | some c => toString c | none => "-"}.{p.seen.get 0}/{p.seen.get 1}/{p.seen.get 2}/{p.seen.get 3}"
+  | .err e => s!"err.{showErr e}"
+  | .panic e => s!"panic.{showErr e}"
+
+def showObs (sh : Shape) : Option Obs → String
+  | none => "regpanic"
+  | some o =>
+    let steps := o.steps.map fun s => "|".intercalate (s.evs.map (showEv sh)) ++ ">" ++ showRes s.res
+    let views := o.views.map fun v => s!"{v.1}:{v.2}"
+    s!"steps={";".intercalate steps} views={",".intercalate views}"
+
+/-! parsing the implementation's observation back (for the Spec) -/
+
+def parseOk (c : Char) : Option Bool := if c == '+' then some true else if c == '!' then some false else none
+
+def parseEv (t : String) : Option Ev :=
+  if t == "D" then some .dflt else
+  match t.toList with
+  | 'R' :: rest => do
+      let ok ← parseOk (← rest.getLast?)
+      pure (.fact (← (String.ofList rest.dropLast).toNat?) ok)
+  | k :: rest => do
+      let ok ← parseOk (← rest.getLast?)
+      match (String.ofList rest.dropLast).splitOn "@" with
+      | [i, a] =>
+        let i ← i.toNat?
+        let a := a.toNat?
+        if k == 'F' then pure (.fill i a ok) else if k == 'C' then pure (.ctor i a ok) else none
+      | _ => none
+  | [] => none
+
+def parseErr (s : String) : Option Err :=
+  if s.startsWith "fill" then (s.drop 4).toString.toNat?.map .fill
+  else if s.startsWith "ctor" then (s.drop 4).toString.toNat?.map .ctor
+  else if s.startsWith "fact" then (s.drop 4).toString.toNat?.map .fact
+  else none
+
+def parseRes (s : String) : Option Res :=
+  if s == "made" then some .made else
+  match s.splitOn "." with
+  | ["ok", serial, cell, seen] => do
+      let vals ← (seen.splitOn "/").mapM String.toInt?
+      match vals with
+      | [m, a, b, c] =>
+        -- zero-valued fields are bound explicitly; `Cfg.get` cannot tell the difference
+        pure (.ok ⟨← serial.toNat?, cell.toNat?, [(0, m), (1, a), (2, b), (3, c)]⟩)
+      | _ => none
+  | ["err", e] => (parseErr e).map .err
+  | ["panic", e] => (parseErr e).map .panic
+  | _ => none
+
+def parseStep (s : String) : Option Step :=
+  match s.splitOn ">" with
+  | [evs, res] => do
+      let evs ← (splitList evs "|").mapM parseEv
+      pure ⟨evs, ← parseRes res⟩
+  | _ => none
+
+def parseObs (s : String) : Option (Option Obs) :=
+  if s == "regpanic" then some none else do
+  let kv := parseKV s
+  let steps ← (splitList (getS kv "steps") ";").mapM parseStep
+  let views ← (splitList (getS kv "views")).mapM fun v =>
+    match v.splitOn ":" with
+    | [a, b] => do pure ((← a.toNat?), (← b.toInt?))
+    | _ => none
+  pure (some ⟨steps, views⟩)
+
+def fields : List Nat := [1, 2, 3]
+
+def handle : Handler := fun input impl =>
+  match parseInput input with
+  | none => ("-", "fail:driver:unparsable input")
+  | some inp =>
+    let m := showObs inp.sh (run inp)
+    match parseObs impl with
+    | none => (m, s!"fail:crash:unparsable observation {impl.take 120}")
+    | some obs =>
+      -- products of a no-config shape are printed with zero fields: the Spec wants `seen = []` there
+      let obs := if inp.sh.cfg = .none then
+          obs.map fun o => { o with steps := o.steps.map fun s =>
+            match s.res with
+            | .ok p => if p.seen == [(0, 0), (1, 0), (2, 0), (3, 0)] then { s with res := .ok { p with seen := [] } } else s
+            | _ => s }
+        else obs
+      (m, judge inp obs fields)
 
 end Pandora.Drv.C18
